@@ -126,7 +126,14 @@ def main(job_path):
         tb_files = [
             fs_.filename for fs_ in traceback.extract_tb(e.__traceback__)
         ]
-        rep["exc_in_harness"] = bool(tb_files) and "/vf/" in tb_files[-1]
+        # harness bug: innermost frame in the harness itself (the test models
+        # are "user code" called by nessai and do not count), or no nessai
+        # frame at all
+        inner = tb_files[-1] if tb_files else ""
+        rep["exc_in_harness"] = (
+            ("/vf/" in inner and not inner.endswith("/vf/models.py"))
+            or rep["exc_where"] is None
+        )
     finally:
         try:
             mon.flush()
